@@ -57,6 +57,11 @@ def sample_hdi(sample: ndarray, fraction: float) -> ndarray:
             """
         )
 
+    if s.dtype.kind in "iu":
+        # widths of integer samples are formed in floating point: the difference of two
+        # values of a narrow integer type can exceed the range of that type
+        s = s.astype(float)
+
     if s.ndim == 1:
         s.resize([s.size, 1])
 
